@@ -209,9 +209,13 @@ pub struct Trace {
     pub deliveries: Vec<Delivered>,
     /// op index that produced handle i
     pub handles: Vec<usize>,
+    /// `Debug` rendering of handle i (shows the operation kind)
+    pub handle_debug: Vec<String>,
     pub conns: Vec<(usize, ConnRes)>,
     /// A panic inside the client (message), if any.
     pub panic: Option<String>,
     pub watchdog: bool,
     pub now_calls: u64,
+    /// `Will::new` / `ConfigBuilder` refused the configuration
+    pub config_error: Option<String>,
 }
